@@ -95,7 +95,7 @@ def gen_scenario(r, big=False):
 
 
 def gen(r, tier):
-    n = {"quick": 100, "search": 400, "thorough": 1200}[tier]
+    n = {"quick": 70, "search": 250, "thorough": 800}[tier]
     return [gen_scenario(r, big=(tier != "quick" and i % 5 == 0)) for i in range(n)]
 
 
